@@ -8,7 +8,8 @@ LEAN_MODULES = ["LunaVerif.Props.C52", "LunaVerif.Lemmas.I2cWrite", "LunaVerif.L
 DRIVER = "Driver/C52.lean"
 REQUIRED_THEOREMS = ["sda_changes_under_scl_high_only_for_start_stop", "busy_low_iff_accepting",
                      "stretch_holds_timer", "read_samples_when_scl_high", "write_and_ack_step_facts",
-                     "sda_released_for_target_bits", "write_msb_first_and_ack", "read_returns_sampled_octet"]
+                     "sda_released_for_target_bits", "write_msb_first_and_ack", "read_returns_sampled_octet",
+                     "sda_and_scl_never_change_together"]
 RULE = ("cases = (period_cyc, clk_stretch) x behaviour; cooperative: random operation sequences (start, repeated "
         "start, write, read, stop) issued when busy is low, behavioural target on open-drain wired-AND lines (ACK/NAK, "
         "read data MSB first set up at a random point of the low phase, random clock stretching after falling edges "
@@ -196,6 +197,8 @@ def monitor(desc, stim, rows):
             if need not in cand:
                 fail(t + 1, "sda-change-under-scl-high", "initiator %s SDA with SCL released during %s (no %s requested)"
                      % ("pulled" if falling else "released", sorted(cand), need))
+        if n_sda_oe != sda_oe and n_scl_oe != scl_oe:
+            fail(t + 1, "sda-changes-with-scl", "SDA and SCL drives change at the same clock edge (no set-up/hold time)")
         # ---- clock stretching: no progress while the target holds SCL low
         if not scl_oe and not scl_pad:
             low_run += 1
